@@ -33,6 +33,7 @@ def check(ctx, tier):
     rlrules.co_reversal(ctx, "C15.d", f, "indices", "values")
     start_to_end(ctx, tk)
     dispatch(ctx, tk)
+    mask_branch_is_bool_only(ctx, tk)
     fs = [ctx.func(RL + n) for n in ("__getitem__", "_get_position", "_get_slice", "_step_subset", "_start_to_end", "_getitem_bool", "_ragged_slice")] + \
          [ctx.func("mixin.NPSIndexable.__getitem__")]
     tk.purity("C15.g", fs, "indexing does not modify the array or the caller's index", content_only=True)
@@ -40,6 +41,46 @@ def check(ctx, tier):
     from .. import hazards as _hz, scopes as _sc
     _hz.generic(ctx, tk, "C15.z", _sc.scope(tk, "C15", depth=1))
     return {}
+
+
+def mask_branch_is_bool_only(ctx, tk):
+    """an integer index array addresses positions whatever its width: the branch that turns the index into positions with
+    np.flatnonzero is entered for boolean dtype only (a test widened with `or idx.dtype == np.uint8 ...` reads positions as a mask)"""
+    what = "only a boolean index array is treated as a mask (np.flatnonzero); every integer dtype addresses positions"
+    for f in (ctx.func(RL + "__getitem__"), ctx.func(RL + "_get_position")):
+        local = {}
+        for x in ast.walk(f.node):
+            if isinstance(x, ast.Assign) and len(x.targets) == 1 and isinstance(x.targets[0], ast.Name):
+                local.setdefault(x.targets[0].id, []).append(x.value)
+
+        def expand(e, depth=0):
+            out = [e]
+            if depth < 3:
+                for y in ast.walk(e):
+                    if isinstance(y, ast.Name) and len(local.get(y.id, ())) == 1:
+                        out += expand(local[y.id][0], depth + 1)
+            return out
+
+        for st in ast.walk(f.node):
+            if not isinstance(st, (ast.If, ast.IfExp)):
+                continue
+            body = st.body if isinstance(st, ast.If) else [st.body]
+            if not any(isinstance(y, ast.Call) and isinstance(y.func, ast.Attribute) and y.func.attr in ("flatnonzero", "nonzero") and y.args
+                       and isinstance(y.args[0], ast.Name) and y.args[0].id in f.params for b in body for y in ast.walk(b)):
+                continue
+            for e in expand(st.test):
+                for y in ast.walk(e):
+                    if isinstance(y, ast.BoolOp) and isinstance(y.op, ast.Or):
+                        for alt in y.values:
+                            for cmp_ in ast.walk(alt):
+                                if isinstance(cmp_, ast.Compare) and len(cmp_.ops) == 1 and isinstance(cmp_.ops[0], (ast.Eq, ast.In)) \
+                                        and any(isinstance(z, ast.Attribute) and z.attr in ("dtype", "kind") for z in ast.walk(cmp_.left)):
+                                    rhs = ast.unparse(cmp_.comparators[0])
+                                    if rhs not in ("bool", "np.bool_", "np.bool", "'b'", '"b"', "numpy.bool_"):
+                                        ctx.violated("C15.j", f, what, "the mask branch is also entered when `%s`: positions given in that dtype are read as a 0/1 mask" % ast.unparse(cmp_)[:80],
+                                                     node=st, engine="E1")
+                                        return
+    ctx.holds("C15.j", ctx.func(RL + "__getitem__"), what, engine="E1")
 
 
 def slice_bounds(ctx, tk):
